@@ -218,7 +218,8 @@ def run_shard(spec):
 
     # (2) generated programs (Hypothesis-driven chooser so that failures shrink)
     def test(data):
-        g = PG.Gen(E.HypChooser(data), max_depth=4)
+        ch_ = E.HypChooser(data)
+        g = PG.Gen(ch_, max_depth=4, fold_bias=ch_.p(0.3))     # some programs with constant tests / constant-bound lets
         text = g.program()
         found, status = check_program(text)
         if status == "discard":
